@@ -13,6 +13,8 @@ import (
 	"context"
 	"errors"
 	"fmt"
+	"net/url"
+	"strings"
 	"testing"
 	"time"
 
@@ -64,6 +66,7 @@ type world struct {
 	plans   map[int64]*lib.HeightPlan
 	planned map[string]abci.ResponseDeliverTx // tx -> the DeliverTx answer the application was scripted to give
 	txs     []txRef
+	keys    [][]byte // this world's key pool
 	env     *rpccore.Environment
 	core    *coreClient
 	feat    map[string]bool
@@ -83,7 +86,49 @@ func (w *world) heights() []int64 {
 var keyPool = [][]byte{[]byte("a"), []byte("b"), []byte("k1"), []byte("k2"), []byte("owner"), []byte("a/b"), []byte("sp ace"),
 	[]byte("p%41"), {0x00, 0x01}, {0xff}, []byte("x:41"), []byte("x:zz")}
 
-var stores = []string{"acc", "meta"}
+// Two plain stores and a pair whose names differ only in how a URL decoder may read them ('+' vs space).
+var stores = []string{"acc", "meta", "x+y z", "x y z"}
+
+// keyAlphabet: every printable ASCII byte (all URL-reserved and unreserved characters) and a few non-ASCII ones.
+var keyAlphabet = func() []byte {
+	var a []byte
+	for c := byte(0x20); c < 0x7f; c++ {
+		a = append(a, c)
+	}
+	return append(a, 0x00, 0x7f, 0x80, 0xc3, 0xff)
+}()
+
+// confusables: the keys some URL encoder/decoder pair could mistake k for (path vs query escaping, escaping applied
+// twice or not at all). Whatever confusion a key-path codec may have, the key it would be mistaken for exists.
+func confusables(k []byte) [][]byte {
+	var out [][]byte
+	add := func(s string, err error) {
+		if err == nil && s != "" && s != string(k) {
+			for _, o := range out {
+				if string(o) == s {
+					return
+				}
+			}
+			out = append(out, []byte(s))
+		}
+	}
+	add(url.PathUnescape(string(k)))
+	add(url.QueryUnescape(string(k)))
+	add(url.PathEscape(string(k)), nil)
+	add(url.QueryEscape(string(k)), nil)
+	add(strings.ReplaceAll(string(k), " ", "+"), nil)
+	return out
+}
+
+// genKeys draws the key pool of one world: the fixed pool, a few keys over the whole alphabet, and their confusables.
+func genKeys(t *rapid.T) [][]byte {
+	keys := append([][]byte(nil), keyPool...)
+	for i := 0; i < 3; i++ {
+		keys = append(keys, rapid.SliceOfN(rapid.SampledFrom(keyAlphabet), 1, 4).Draw(t, "key.random"))
+	}
+	keys = append(keys, []byte("a+b"), []byte("q?x=1&y"))
+	return keys
+}
 
 func genEvent(t *rapid.T, label string) abci.Event {
 	typ := rapid.SampledFrom([]string{"xfer", "mint", "note"}).Draw(t, label+".type")
@@ -126,12 +171,28 @@ func genWorld(t *rapid.T, maxH int, lags ...int64) *world {
 	evMode := rapid.SampledFrom([]string{"none", "some", "some"}).Draw(t, "evmode")
 	churn := rapid.SampledFrom([]string{"static", "churn", "churn"}).Draw(t, "churn")
 
-	seed := map[string]map[string][]byte{"acc": {}, "meta": {}}
+	w.keys = genKeys(t)
+	seed := map[string]map[string][]byte{}
 	for _, s := range stores {
+		seed[s] = map[string][]byte{}
 		n := rapid.IntRange(1, 4).Draw(t, "seed.n")
 		for i := 0; i < n; i++ {
-			k := rapid.SampledFrom(keyPool).Draw(t, "seed.k")
+			k := rapid.SampledFrom(w.keys).Draw(t, "seed.k")
 			seed[s][string(k)] = []byte(fmt.Sprintf("genesis-%s-%d", s, i))
+			if rapid.Bool().Draw(t, "seed.confusables") { // the keys k could be mistaken for live in the same store
+				for j, c := range confusables(k) {
+					seed[s][string(c)] = []byte(fmt.Sprintf("genesis-%s-%d-confusable-%d", s, i, j))
+				}
+			}
+		}
+	}
+	// the two look-alike stores hold the same keys (with their own values)
+	for k := range seed["x+y z"] {
+		seed["x y z"][k] = []byte("other-store-" + k)
+	}
+	for k := range seed["x y z"] {
+		if _, ok := seed["x+y z"][k]; !ok {
+			seed["x+y z"][k] = []byte("plus-store-" + k)
 		}
 	}
 	w.kv = lib.NewC20KV(stores, seed)
@@ -160,7 +221,7 @@ func genWorld(t *rapid.T, maxH int, lags ...int64) *world {
 			var tx []byte
 			if rapid.Bool().Draw(t, label+".kvtx") {
 				s := rapid.SampledFrom(stores).Draw(t, label+".store")
-				k := rapid.SampledFrom(keyPool).Draw(t, label+".key")
+				k := rapid.SampledFrom(w.keys).Draw(t, label+".key")
 				tx = lib.C20SetTx(s, k, []byte(fmt.Sprintf("v%d.%d", h, j)))
 			} else {
 				tx = []byte(fmt.Sprintf("t%d.%d:%s", h, j, rapid.StringN(0, 6, 12).Draw(t, label+".body")))
@@ -553,6 +614,14 @@ func (l *liar) Status(ctx context.Context) (*ctypes.ResultStatus, error) {
 	l.calls["Status"]++
 	return l.next.Status(ctx)
 }
+// pass-through routes the proxy serves without verification: a fixed honest answer
+func (l *liar) NetInfo(ctx context.Context) (*ctypes.ResultNetInfo, error) {
+	return &ctypes.ResultNetInfo{Listening: true, NPeers: 0}, nil
+}
+func (l *liar) GenesisChunked(ctx context.Context, id uint) (*ctypes.ResultGenesisChunk, error) {
+	return &ctypes.ResultGenesisChunk{ChunkNumber: int(id), TotalChunks: 1, Data: "e30="}, nil
+}
+func (l *liar) Health(ctx context.Context) (*ctypes.ResultHealth, error) { return &ctypes.ResultHealth{}, nil }
 func (l *liar) Block(ctx context.Context, h *int64) (*ctypes.ResultBlock, error) {
 	r, err := l.next.Block(ctx, h)
 	return relay(l, "Block", r, err)
